@@ -99,12 +99,17 @@ def run(tier, rep):
         _report(rep, "wide_d0_all_histories", out_w, 0)
         out_d = explore_many(pool, deep, bound, JUDGE)
         _report(rep, "deep_G1", out_d, bound)
-        g2_small = {k: v for k, v in g2.items() if k[0] == "L0"} if tier == "quick" else g2
-        out_g = explore_many(pool, g2_small, 1, JUDGE)
-        _report(rep, "G2_line_level", out_g, 1)
-        if tier == "quick":
-            out_g0 = explore_many(pool, {k: v for k, v in g2.items() if k[0] != "L0"}, 0, JUDGE)
-            _report(rep, "G2_line_level_d0", out_g0, 0)
+        # line-level granularity (G2): the check-then-act windows inside stop()/_async_step are one or two bytecode lines wide
+        l0 = {k: v for k, v in g2.items() if k[0] == "L0"}
+        l0_run = {k: v for k, v in l0.items() if k[1] == "r."}
+        bound_run = 2 if tier == "quick" else 3
+        out_g = explore_many(pool, l0_run, bound_run, JUDGE)
+        _report(rep, "G2_line_level_L0_run_stop", out_g, bound_run)
+        out_g = explore_many(pool, {k: v for k, v in l0.items() if k not in l0_run}, 1 if tier == "quick" else 2, JUDGE)
+        _report(rep, "G2_line_level_L0_other", out_g, 1 if tier == "quick" else 2)
+        rest = {k: v for k, v in g2.items() if k[0] != "L0"}
+        out_g0 = explore_many(pool, rest, 0 if tier == "quick" else 1, JUDGE)
+        _report(rep, "G2_line_level_L1", out_g0, 0 if tier == "quick" else 1)
     some = list(deep.items())[:2]
     for k, j in some:
         rep.sample(dict(job=":".join(map(str, k)), user=j["user"], spec=j["spec"]))
